@@ -84,6 +84,9 @@ type queuedHeaderFrame struct {
 	endStream bool
 	priority  http2.PriorityParam
 	chunks    [][]byte
+	// encode, if set, produces chunks when the frame is sent, so that header blocks are HPACK-encoded
+	// in the order in which they go out on the connection.
+	encode func() ([][]byte, error)
 }
 
 func (f *queuedHeaderFrame) StreamID() uint32 {
@@ -95,6 +98,13 @@ func (*queuedHeaderFrame) flowControlSize() int {
 }
 
 func (f *queuedHeaderFrame) send(dest *http2.Framer) error {
+	if f.encode != nil {
+		chunks, err := f.encode()
+		if err != nil {
+			return err
+		}
+		f.chunks, f.encode = chunks, nil
+	}
 	if err := dest.WriteHeaders(http2.HeadersFrameParam{
 		StreamID:      f.streamID,
 		BlockFragment: f.chunks[0],
@@ -132,6 +142,8 @@ type queuedPushPromiseFrame struct {
 	streamID  uint32
 	promiseID uint32
 	chunks    [][]byte
+	// encode, if set, produces chunks when the frame is sent (see queuedHeaderFrame).
+	encode func() ([][]byte, error)
 }
 
 func (f *queuedPushPromiseFrame) StreamID() uint32 {
@@ -143,6 +155,13 @@ func (*queuedPushPromiseFrame) flowControlSize() int {
 }
 
 func (f *queuedPushPromiseFrame) send(dest *http2.Framer) error {
+	if f.encode != nil {
+		chunks, err := f.encode()
+		if err != nil {
+			return err
+		}
+		f.chunks, f.encode = chunks, nil
+	}
 	if err := dest.WritePushPromise(http2.PushPromiseParam{
 		StreamID:      f.streamID,
 		PromiseID:     f.promiseID,
